@@ -97,6 +97,17 @@ Example C08_ex_single_runs :
               = Some out.
 Proof. by split; [vm_compute | eexists; vm_compute; reflexivity]. Qed.
 
+(* a trio (father 0, mother 1, child 2) with one read of the child: a well-formed pedigree instance (its run
+   succeeds as well: evaluated with BigQ by the correspondence check; rat is too slow for it) *)
+Definition C08_ex_trio : inst rat :=
+  let pri := [:: [:: C08_q 1 4; C08_q 1 2; C08_q 1 4]; [:: C08_q 1 4; C08_q 1 2; C08_q 1 4];
+                 [:: C08_q 1 4; C08_q 1 2; C08_q 1 4]] in
+  Inst (Ped 3 [:: (0, 1, 2)%N])
+    [:: Column [:: Entry 0 2 (Some true) (C08_q 1 10)] pri (C08_q 1 10);
+        Column [:: Entry 0 2 (Some false) (C08_q 1 10)] pri (C08_q 1 10)].
+Example C08_ex_trio_wf : wf C08_ex_trio.
+Proof. by vm_compute. Qed.
+
 (* ---------------------------------------------------------------- GT, GQ from the likelihoods *)
 Local Close Scope ring_scope.
 (* (mathcomp binds the scope key %Q to rat; the stdlib rationals are written with Qlt / Qeq / Qmake here) *)
